@@ -1,4 +1,5 @@
 import GcmpyModel.Lemmas.ClosedForms
+import GcmpyModel.Lemmas.CycleExact
 /-
 Property C16: the closed-form equations and the graph counts behind them
 (`gcmpy/message_passing/number_connected_graphs.py`, `equations/clique_equation.py`,
@@ -10,10 +11,13 @@ Proved here
 * `Q_trees`, `Q_zero_outside`, `Q_zero_below` (all `n`), `Q_complete`, `Qgen_trees` (`n ≤ 12`);
 * `nocg_spec`, `QQ_spec`    the brute-force counters count what they say (`QQ n k = connCount n k`, all `n`);
 * `Q_eq_connCount_small`    `Q n k` is the number of connected labelled graphs for `n ≤ 5` and ALL `k`;
-* `cycle_closed_form`, `clique_expanded`, `esym_spec`   the algebraic shape of the two closed-form equations.
+* `cycle_closed_form`, `clique_expanded`, `esym_spec`   the algebraic shape of the two closed-form equations;
+* `cycle_exact`             the chordless-cycle closed form IS the automated equation on `C_n` (= by C15 the exact
+                            bond-percolation expectation), every `n ≥ 3`, every commutative ring
+                            (`cycleGraph` and the combinatorics of the cycle: `Lemmas/CycleExact.lean`).
 
 Stated but NOT proved (kept visible as `Prop`s): `Q_eq_connCount_full`, `Qgen_eq_connCount_full`, `Q_eq_Qgen_full`,
-`clique_exact_full`, `cycle_exact_full`.
+`clique_exact_full`.
 -/
 namespace Gcmpy.ClosedForms
 open Gcmpy Gcmpy.Graph Gcmpy.Automated
@@ -255,9 +259,7 @@ theorem clique_expanded (tau : Nat) (φ : R) (Hs : List R) :
   ring
 end algebra
 
-/-- the cycle `0 - 1 - … - (n-1) - 0` -/
-def cycleGraph (n : Nat) : Motif :=
-  { nodes := List.range n, edges := (List.range (n - 1)).map (fun i => (i, i + 1)) ++ [(0, n - 1)] }
+/- `cycleGraph n`, the cycle `0 - 1 - … - (n-1) - 0`, is defined in `Lemmas/CycleExact.lean`. -/
 
 /-- NOT PROVED: the clique closed form is the exact bond-percolation generating function of the clique
 (= the automated equation on `K_τ` rooted at 0, `Hs` = the `u` of the other vertices).  Checked as a polynomial
@@ -267,11 +269,34 @@ def clique_exact_full : Prop :=
     cliqueEquation tau φ ((List.range (tau - 1)).map fun i => u (i + 1))
       = automatedEquation (completeGraph tau) φ u 0
 
-/-- NOT PROVED: the chordless-cycle closed form is the automated equation on `C_n` (all `u` equal).  Checked as a
-polynomial identity by the correspondence harness for `n ≤ 12`. -/
+/-- the chordless-cycle closed form is the automated equation on `C_n` (all `u` equal); PROVED below (`cycle_exact`) -/
 def cycle_exact_full : Prop :=
   ∀ (R : Type) [CommRing R] (n : Nat) (φ u : R), 3 ≤ n →
     chordlessCycle n u φ = automatedEquation (cycleGraph n) φ (fun _ => u) 0
+
+/-- **C16, chordless cycle.** For every `n ≥ 3` and over every commutative ring, `chordless_cycle_equation(n, u, φ)`
+equals `automated_equation` on the cycle `C_n` rooted at `0` with all `u` equal — hence, by C15 (`automated_exact`),
+the exact bond-percolation expectation of `u^(|component of the root| - 1)` on `C_n`.
+Proof: `cycle_closed_form` (textbook form of the closed form) and `automated_cycle` (`Lemmas/CycleExact.lean`: the
+connected vertex sets containing the root are the arcs and the whole cycle; an arc's induced path has one connected
+spanning edge subset and two boundary edges; the cycle's connected spanning edge subsets miss at most one edge). -/
+theorem cycle_exact : cycle_exact_full := by
+  intro R _ n φ u hn
+  rw [cycle_closed_form n hn u φ, automated_cycle hn φ u]
+
+/-- `cycle_exact`, unfolded -/
+theorem cycle_exact' {R : Type} [CommRing R] (n : Nat) (hn : 3 ≤ n) (φ u : R) :
+    chordlessCycle n u φ = automatedEquation (cycleGraph n) φ (fun _ => u) 0 :=
+  cycle_exact R n φ u hn
+
+/-- consequence (with C15): the closed form is the exact expectation `exactE` on `C_n` -/
+theorem cycle_closed_eq_exactE {R : Type} [CommRing R] (n : Nat) (hn : 3 ≤ n) (φ u : R) :
+    chordlessCycle n u φ = exactE (cycleGraph n) φ (fun _ => u) 0 := by
+  have h0 : 0 ∈ (cycleGraph n).nodes := by
+    show 0 ∈ List.range n
+    rw [List.mem_range]; omega
+  rw [cycle_exact' n hn, exactE_eq_percAutoE _ (cycleGraph_wf (by omega)) (cycleGraph_simple hn).1 h0,
+    percAutoE_eq_automatedEquation _ (cycleGraph_wf (by omega)) (cycleGraph_simple hn) h0]
 
 /-! ## 6. examples (kernel evaluation) -/
 
